@@ -372,45 +372,65 @@ def delStream (s : St) (spk : Nat) : St × Res :=
   | none => (s, .nf)
   | some _ => (dropStream s spk, .ok)
 
+/-- `Stream.add_file` refuses a name that belongs to a media file of another
+stream, or whose blob file name belongs to another media file (stream.py add_file) -/
+def uploadRefused (s : St) (spk : Nat) (fn : String) (mf : Option MediaFile) : Bool :=
+  let foreign : Bool := match mf with
+    | some f => f.stream != spk
+    | none => false
+  let blobOwner : Option MediaFile :=
+    match s.blobs.find? (·.filename == fn) with
+    | none => none
+    | some b => s.files.find? (·.blob == b.pk)
+  let taken : Bool := match blobOwner with
+    | none => false
+    | some o => match mf with
+      | some f => o.pk != f.pk
+      | none => true
+  foreign || taken
+
+/-- `if mf: mf.delete()` – the rows of the replaced file -/
+def dropOpt (s : St) : Option MediaFile → St
+  | some f => dropFile s f
+  | none => s
+
+/-- `if mf: mf.delete_file()` – the replaced file on disk -/
+def diskAfterDrop (s : St) (st : Stream) : Option MediaFile → List DiskFile
+  | some f => (match findBlob s f.blob with
+    | some b => rmDisk s.disk st.dir b.filename
+    | none => s.disk)
+  | none => s.disk
+
+/-- `blob = Blob.get_one(filename=…); if blob: blob.delete()` – an ownerless blob row of that name -/
+def dropOrphan (blobs : List Blob) (fn : String) : List Blob :=
+  match blobs.find? (·.filename == fn) with
+  | some b => blobs.filter (·.pk != b.pk)
+  | none => blobs
+
+/-- the rest of `Stream.add_file` for an accepted upload into stream `st`;
+`mf` is the media file of that name (`MediaFile.get(name=stem)`) -/
+def uploadAccepted (s : St) (st : Stream) (stem suffix : String) (c : Content)
+    (mf : Option MediaFile) : St :=
+  let fn := stem ++ suffix
+  let s1 := dropOpt s mf
+  let disk1 := diskAfterDrop s st mf
+  let blobs2 := dropOrphan s1.blobs fn
+  let disk2 := if (s1.blobs.find? (·.filename == fn)).isSome then rmDisk disk1 st.dir fn else disk1
+  let bpk := fresh (blobs2.map (·.pk))
+  let fpk := fresh (s1.files.map (·.pk))
+  { s1 with disk := writeDisk disk2 st.dir fn c,
+            blobs := blobs2 ++ [{ pk := bpk, filename := fn }],
+            files := s1.files ++ [{ pk := fpk, name := stem, stream := st.pk, blob := bpk,
+                                    rep := none, errs := [] }] }
+
 /-- `UploadHandler.post` → `Stream.add_file` (media_management.py:64-110, stream.py add_file) -/
 def upload (s : St) (spk : Nat) (stem suffix : String) (c : Content) : St × Res :=
   match findStream s spk with
   | none => (s, .nf)
   | some st =>
-    let fn := stem ++ suffix
     let mf := s.files.find? (·.name == stem)
-    let foreign : Bool := match mf with
-      | some f => f.stream != spk
-      | none => false
-    let blobOwner : Option MediaFile :=
-      match s.blobs.find? (·.filename == fn) with
-      | none => none
-      | some b => s.files.find? (·.blob == b.pk)
-    let taken : Bool := match blobOwner with
-      | none => false
-      | some o => match mf with
-        | some f => o.pk != f.pk
-        | none => true
-    if foreign || taken then (s, .rej)
-    else
-      -- replace the file of the same name in this stream
-      let s1 : St := match mf with
-        | some f =>
-          let s0 := dropFile s f
-          match findBlob s f.blob with
-          | some b => { s0 with disk := rmDisk s0.disk st.dir b.filename }
-          | none => s0
-        | none => s
-      -- an ownerless blob row of that file name
-      let s2 : St := match s1.blobs.find? (·.filename == fn) with
-        | some b => { s1 with blobs := s1.blobs.filter (·.pk != b.pk), disk := rmDisk s1.disk st.dir fn }
-        | none => s1
-      let bpk := fresh (s2.blobs.map (·.pk))
-      let fpk := fresh (s2.files.map (·.pk))
-      ({ s2 with disk := writeDisk s2.disk st.dir fn c,
-                 blobs := s2.blobs ++ [{ pk := bpk, filename := fn }],
-                 files := s2.files ++ [{ pk := fpk, name := stem, stream := spk, blob := bpk,
-                                         rep := none, errs := [] }] }, .ok)
+    if uploadRefused s spk (stem ++ suffix) mf then (s, .rej)
+    else (uploadAccepted s st stem suffix c mf, .ok)
 
 /-- the file on disk that belongs to a media file -/
 def blobOnDisk (s : St) (f : MediaFile) : Option (Stream × Blob × DiskFile) :=
@@ -433,6 +453,17 @@ def index (s : St) (mfid : Nat) : St × Res :=
     | none => (s, .rej)
     | some (_, _, d) => if d.content.idx then (applyIndex s mfid d.content, .ok) else (s, .rej)
 
+/-- the database side of a successful `modify_media_file` (mediafile.py:334-350):
+a new blob row `nn`, the media file re-pointed to it and re-indexed from the new
+content, the old blob row deleted (`auto_delete`) -/
+def editMediaApply (s : St) (f : MediaFile) (nn : String) (c' : Content) : St :=
+  let bpk := fresh (s.blobs.map (·.pk))
+  let s1 : St := { s with
+    blobs := s.blobs ++ [{ pk := bpk, filename := nn }],
+    files := s.files.map (fun x => if x.pk == f.pk then { x with blob := bpk } else x) }
+  let s2 := applyIndex s1 f.pk c'
+  { s2 with blobs := s2.blobs.filter (·.pk != f.blob) }
+
 /-- `EditMedia.post` → `modify_media_file` (media_management.py:234-284, mediafile.py:281-350) -/
 def editMedia (s : St) (spk mfid track : Nat) : St × Res :=
   match findStream s spk with
@@ -453,15 +484,9 @@ def editMedia (s : St) (spk mfid track : Nat) : St × Res :=
           let nn := newName s.disk st.dir ext.1 ext.2 (s.disk.length + 1) 0
           let c' : Content := { d.content with track := track }
           let disk' := writeDisk s.disk st.dir nn c'
+          -- the new file is written before the INSERT of its blob row can fail (UNIQUE filename)
           if s.blobs.any (·.filename == nn) then ({ s with disk := disk' }, .rej)
-          else
-            let bpk := fresh (s.blobs.map (·.pk))
-            let s1 : St := { s with
-              disk := disk',
-              blobs := s.blobs ++ [{ pk := bpk, filename := nn }],
-              files := s.files.map (fun x => if x.pk == mfid then { x with blob := bpk } else x) }
-            let s2 := applyIndex s1 mfid c'
-            ({ s2 with blobs := s2.blobs.filter (·.pk != f.blob) }, .ok)
+          else ({ editMediaApply s f nn c' with disk := disk' }, .ok)
 
 /-- `MediaInfo.delete` / `DeleteMedia.delete_model` (media_management.py:167-189, 318-326) -/
 def delMedia (s : St) (spk mfid : Nat) : St × Res :=
